@@ -712,10 +712,6 @@ impl Connection {
 
         let response = raw_prepared.into_response();
 
-        if response.result_metadata.id().is_none() {
-            return Ok(());
-        }
-
         let current_metadata = previous_prepared.get_current_result_metadata();
 
         let non_destructive_update =
@@ -735,7 +731,16 @@ impl Connection {
             return Ok(());
         }
 
-        if current_metadata.id() != response.result_metadata.id() {
+        // The re-preparation announces the statement's current result metadata.
+        // With the metadata id extension the ids tell whether it changed; without it
+        // (no id in the response) the column specs themselves are compared, so that
+        // rows sent without metadata are not decoded with stale columns after the
+        // server dropped the statement because of a schema change.
+        let metadata_changed = match response.result_metadata.id() {
+            Some(new_id) => current_metadata.id() != Some(new_id),
+            None => current_metadata.col_specs() != response.result_metadata.col_specs(),
+        };
+        if metadata_changed {
             previous_prepared.update_current_result_metadata(Arc::new(response.result_metadata));
         }
 
